@@ -22,7 +22,7 @@ PROPS = {
     'C08': {
         'level': 'proof',
         'verus': ['U-REACH', 'U-COMPACTAS'],
-        'kani': [],
+        'kani': ['uint_predicate_table', 'compact_as_unnamed_upto3'],
         'trusted_base': ['Verus 0.2026.09.13, Z3, rustc 1.98.1'],
         'assumptions': [
             'precondition closed(R): every id mentioned by a registry entry resolves (DESIGN.md section 3 clause 2)',
@@ -37,7 +37,7 @@ PROPS = {
     'C10': {
         'level': 'proof',
         'verus': ['U-SANITY', 'U-RESOLVE'],
-        'kani': [],
+        'kani': ['sanity_pass_upto4'],
         'trusted_base': ['Verus 0.2026.09.13, Z3, rustc 1.98.1'],
         'assumptions': [
             'sanity_pass: registry has at most 2^32 entries (the `idx as u32` truncation made explicit)',
@@ -52,7 +52,7 @@ PROPS = {
     'C13': {
         'level': 'proof',
         'verus': ['U-FMT'],
-        'kani': [],
+        'kani': ['primnames_table'],
         'trusted_base': [
             'Verus 0.2026.09.13, Z3, rustc 1.98.1',
             'PeekChars shim = peekmore 1.3.0 (3 external_body contracts); SmallVec as Vec; &str <= isize::MAX bytes',
@@ -63,6 +63,22 @@ PROPS = {
         ],
         'not_covered': [
             'termination of the description on cyclic graphs and faithfulness of the text (Transformer::resolve: RefCell<HashMap>, function pointers; format! everywhere)',
+        ],
+    },
+    'C12': {
+        'level': 'proof',
+        'verus': [],
+        'kani': ['primex_bool', 'primex_u8', 'primex_u16', 'primex_u32', 'primex_u64', 'primex_u128', 'primex_i8', 'primex_i16',
+                 'primex_i32', 'primex_i64', 'primex_i128', 'primex_u256', 'primex_i256', 'primex_char_bounded', 'primex_str_bounded'],
+        'trusted_base': ['Kani 0.68.0, CBMC 6.11.0 / CaDiCaL, rustc (Kani toolchain)',
+                         'rand 0.8.5 Standard / Uniform distributions are verified as compiled (not stubbed)'],
+        'assumptions': [
+            'scale-value encodes Primitive::U128(v) against uN iff v < 2^N, Primitive::I128(v) against iN iff -2^(N-1) <= v < 2^(N-1), Bool/Char/String/U256/I256 against their own kind (read from scale-value 0.18 encode impl; not verified here)',
+            'mem::forget of the returned Value (its recursive drop glue is not executed symbolically)',
+        ],
+        'not_covered': [
+            'composite / variant / sequence / array / tuple / compact / bit-sequence example construction and the recursion-to-error marker (Transformer::resolve: RefCell<HashMap> + function pointers)',
+            'seed determinism, encode/decode round trip, "a value is returned whenever no cycle and no empty enum"',
         ],
     },
 }
